@@ -1,11 +1,14 @@
 import Zlink.Model.DriverRx
+import Zlink.Model.DriverTx
 /-! `zmodel`: reads case lines on stdin, prints for each the model's observation and the Lean
     oracle's verdict on the implementation's observation. -/
 
 def handleLine (line : String) : String :=
   let ts := Wire.words line
   match ts with
-  | "rx" :: _ => DriverRx.handle ts
+  | "rx" :: _ => DriverRx.handle false ts
+  | "rxb" :: _ => DriverRx.handle true ts
+  | "tx" :: _ => DriverTx.handle ts
   | _ => "skip"
 
 partial def loop (h : IO.FS.Stream) (out : IO.FS.Stream) : IO Unit := do
